@@ -65,6 +65,38 @@ NDARRAY_ATTRS = frozenset("dtype astype shape ndim size T copy flatten ravel res
                           "argmin argmax argsort sort cumsum cumprod prod clip round squeeze transpose swapaxes take repeat fill view tobytes nonzero dot conj conjugate base data".split())
 
 
+class NeedAssumption(BaseException):
+    """a branch tests a value the abstraction does not decide (a python scalar taken out of a symbolic array, ndarray.all() of a
+    symbolic mask): the scenario is re-run under both answers by explore()"""
+
+    def __init__(self, key):
+        BaseException.__init__(self, "undecided test %r" % (key,))
+        self.key = key
+
+
+_ASSUME = []          # the assumptions of the running exploration(s): {"decided": {key: bool}, "counts": {what: times asked}}
+
+
+def explore(run, limit=10):
+    """run() executes one fold scenario from scratch.  Every test the abstraction cannot decide is resolved both ways: returns
+    [(assumptions, result)] for every consistent resolution (depth-first, at most 2**limit runs).  Tests are identified by what is tested
+    and by how many times that was tested before on the path, so a re-run meets them in the same order."""
+    pending, out = [{}], []
+    while pending:
+        dec = pending.pop()
+        _ASSUME.append({"decided": dec, "counts": {}})
+        try:
+            out.append((dict(dec), run()))
+        except NeedAssumption as n:
+            if len(dec) >= limit:
+                raise Unsupported("more than %d undecided tests on one path (last: %r)" % (limit, n.key))
+            pending.append(dict(dec, **{n.key: False}))
+            pending.append(dict(dec, **{n.key: True}))
+        finally:
+            _ASSUME.pop()
+    return out
+
+
 class WeakRef(Model):
     """weakref.ref(obj): calling it gives the object (the fold keeps every object alive); copy and deepcopy treat it as ATOMIC, as the
     copy module does: a deep copy of the holder still refers to the ORIGINAL referent"""
@@ -234,7 +266,11 @@ class ModelEval(Evaluator):
                 if "ndarray" in getattr(base, "kinds", ()) and a in NDARRAY_ATTRS:
                     # a real ndarray HAS this attribute: its absence is a gap of the token model, not an AttributeError of the program
                     if a == "dtype":
-                        return "float64"
+                        try:
+                            from .rules.array_folds import DT
+                            return DT("float64")
+                        except ImportError:
+                            return "float64"
                     if a == "astype":
                         # same dtype and copy=False: the array itself; anything else allocates
                         def astype(dtype, *args, **kw):
@@ -413,6 +449,9 @@ class ModelEval(Evaluator):
                 return a is b
             if isinstance(op, ast.NotEq):
                 return a is not b
+        if any(isinstance(x, Marker) and x.kind == "pyscalar" for x in (a, b)):
+            # a number taken out of a symbolic array compared with anything: another undecided python scalar (a bool)
+            return Marker("pyscalar", ("cmp", type(op).__name__, a.data if isinstance(a, Marker) else a, b.data if isinstance(b, Marker) else b))
         if isinstance(a, Marker) or isinstance(b, Marker):
             if isinstance(op, ast.Eq):
                 return a == b
@@ -442,12 +481,15 @@ class ModelEval(Evaluator):
             return True
         if isinstance(v, Marker):
             if v.kind == "pyscalar":
-                raise Unsupported("truth value of the number %r is not decided by the abstraction" % (v,))
+                return self._decide("pyscalar %r" % (v.data,), "truth value of the number %r is not decided by the abstraction" % (v,))
             return True          # functions, classes, modules, exception objects
         if isinstance(v, Model):
             t = getattr(v, "truth", None)
             if t is not None:
                 return t()
+            fk = getattr(v, "fork_key", None)
+            if fk is not None:
+                return self._decide("token %s" % (fk() if callable(fk) else fk), "truth value of the token %r is not decided by the abstraction" % (v,))
             if not (hasattr(type(v), "__bool__") or hasattr(type(v), "__len__")):
                 # python would call any object true: a token that does not say what its truth value is must not decide a branch
                 raise Unsupported("truth value of the token %r is not decided by the abstraction%s" % (v, " (line %d)" % node.lineno if node is not None and hasattr(node, "lineno") else ""))
@@ -456,6 +498,19 @@ class ModelEval(Evaluator):
             except Unsupported:
                 raise
         return super().truth(v, node)
+
+    def _decide(self, what, message):
+        """the answer to a test the abstraction does not decide: taken from the assumptions of the running exploration (explore()),
+        which is asked to fork when it has none; without an exploration the fold is unresolved"""
+        a = _ASSUME[-1] if _ASSUME else None
+        if a is None:
+            raise Unsupported(message)
+        n = a["counts"].get(what, 0)
+        a["counts"][what] = n + 1
+        key = "%s #%d" % (what, n)
+        if key in a["decided"]:
+            return a["decided"][key]
+        raise NeedAssumption(key)
 
     def iterate(self, v, node=None):
         if isinstance(v, PyObj):
